@@ -185,8 +185,11 @@ Inject(f) ==
   /\ UNCHANGED <<nb, present, mods, last, nplaced, cfg, set, pt, out>>
 \* a second, different fault on top (pairs)
 Inject2(f) ==
-  /\ phase = "faulty" /\ Len(fault) = 1 /\ Pairs
-  /\ f.kind \in {"undefined_poi", "lumi_no_settings", "dup_channel", "sample_len"} /\ f.kind # fault[1].kind
+  /\ phase = "faulty" /\ Len(fault) = 1
+  \* in every tier: the COMPENSATING pair - a sample one bin too long in one channel and one bin too short in another, so
+  \* that every total over channels still adds up; all other pairs only where Pairs is set (thorough tier)
+  /\ \/ /\ Pairs /\ f.kind \in {"undefined_poi", "lumi_no_settings", "dup_channel", "sample_len"} /\ f.kind # fault[1].kind
+     \/ /\ f.kind = "sample_len" /\ fault[1].kind = "sample_len" /\ f.i # fault[1].i /\ f.d = -fault[1].d
   /\ fault[1].kind \notin {"dup_channel", "dup_sample", "dup_modifier"}     \* positions stay valid
   /\ LET sp == MkSpec(nb, present, mods) IN f \in Faults(sp) /\ Applicable(sp, f)
   /\ spec' = ApplyFault(spec, f)
@@ -204,10 +207,10 @@ FaultUniverse ==
          {[kind |-> "sample_len", i |-> i, j |-> j, d |-> d] : i \in 1..2, j \in 1..2, d \in {1, -1}},
          {[kind |-> "moddata_len", i |-> i, j |-> j, k |-> k, which |-> w, d |-> d] :
               i \in 1..2, j \in 1..2, k \in 1..MaxPlace, w \in {"d1", "d2", "both"}, d \in {1, -1}},
-         {[kind |-> "binwise_shared", i |-> i, j |-> 1, n |-> n, t |-> t] : i \in 1..2, n \in {6} \cup 10..14 \cup 21..22, t \in {SHAPEFACTOR, SHAPESYS, STATERROR}},
-         {[kind |-> "conflict_type", i |-> i, j |-> 1, n |-> n, t |-> t] : i \in 1..2, n \in 1..7 \cup 10..14 \cup 21..22,
+         {[kind |-> "binwise_shared", i |-> i, j |-> 1, n |-> n, t |-> t] : i \in 1..2, n \in {6} \cup 10..18 \cup 21..23, t \in {SHAPEFACTOR, SHAPESYS, STATERROR}},
+         {[kind |-> "conflict_type", i |-> i, j |-> 1, n |-> n, t |-> t] : i \in 1..2, n \in 1..7 \cup 10..18 \cup 21..23,
               t \in {NORMFACTOR, NORMSYS, SHAPESYS, STATERROR, SHAPEFACTOR}},
-         {[kind |-> "override_len", n |-> n, field |-> fl, len |-> l] : n \in 1..7 \cup 10..14 \cup 21..22, fl \in {"inits", "bounds", "auxdata"}, l \in 2..3},
+         {[kind |-> "override_len", n |-> n, field |-> fl, len |-> l] : n \in 1..7 \cup 10..18 \cup 21..23, fl \in {"inits", "bounds", "auxdata"}, l \in 2..3},
          {[kind |-> "undefined_poi"]}, {[kind |-> "lumi_no_settings"]}}
 
 VNext == \/ \E c \in 1..MaxChan, s \in 1..MaxSamp, m \in MIds : VAddMod(c, s, m)
